@@ -26,6 +26,7 @@ type gptPart struct {
 
 type gptSpec struct {
 	LSS     int       `json:"lss"`
+	PSS     int       `json:"pss,omitempty"` // physical sector size when it differs from the logical one (512e, 4Kn-over-512)
 	Sectors uint64    `json:"sectors"`
 	Slack   int       `json:"slack,omitempty"` // extra bytes after the last whole sector
 	GUID    string    `json:"guid,omitempty"`
@@ -72,8 +73,16 @@ func (s tableSpec) lss() int {
 	return s.M.LSS
 }
 
+// pss is the physical sector size handed to the library (defaults to the logical one).
+func (g *gptSpec) pss() int {
+	if g.PSS != 0 {
+		return g.PSS
+	}
+	return g.LSS
+}
+
 func (g *gptSpec) table() *gpt.Table {
-	t := &gpt.Table{LogicalSectorSize: g.LSS, PhysicalSectorSize: g.LSS, GUID: g.GUID, ProtectiveMBR: g.PMBR}
+	t := &gpt.Table{LogicalSectorSize: g.LSS, PhysicalSectorSize: g.pss(), GUID: g.GUID, ProtectiveMBR: g.PMBR}
 	for _, p := range g.Parts {
 		t.Partitions = append(t.Partitions, &gpt.Partition{Index: p.Index, Start: p.Start, End: p.End, Size: p.Size, Type: gpt.Type(p.Type), Name: p.Name, GUID: p.GUID, Attributes: p.Attrs})
 	}
@@ -154,6 +163,9 @@ func gptArraySectors(lss int) uint64 { return uint64(128 * 128 / lss) }
 func genGPTSpec(t *rapid.T, hugeOK bool) *gptSpec {
 	g := &gptSpec{}
 	g.LSS = rapid.SampledFrom([]int{512, 512, 4096}).Draw(t, "lss")
+	if rapid.IntRange(0, 3).Draw(t, "pssMode") == 0 {
+		g.PSS = 4096 + 512 - g.LSS // the other one of the two sizes
+	}
 	as := gptArraySectors(g.LSS)
 	minSectors := 2 + as + as + 1 + 1 // room for one usable sector
 	mode := rapid.IntRange(0, 9).Draw(t, "diskMode")
